@@ -49,6 +49,18 @@ func corpusC02() []*Case {
 	cs = append(cs, single("C02-F5 dependency met by another version of an ancestor's name",
 		[]Pkg{pk("d", "3", "d~2.0a", "l"), pk("d", "2.0a", "g"), pk("l", "1"), pk("g", "1"), pk("a", "2.0", "b"), pk("b", "1.0", "a<1"), pk("a", "0.5", "g")},
 		w("d"), w("d", "g"), w("a"), w("b")))
+	// C02-F1c minimal: the requested provider is dropped by the de-duplication by name
+	cs = append(cs, single("C02-F1c requested provider dropped in favour of a sibling version",
+		[]Pkg{pk("d", "2.0", "l").prov("k"), pk("d", "1.0").prov("l")},
+		w("k"), w("d"), w("l"), w("k", "l")))
+	// C02-F1b minimal: a dependency on a virtual met by y=2.0, but y=1.0 entered the list first
+	cs = append(cs, single("C02-F1b provider of a virtual lost the de-duplication",
+		[]Pkg{pk("a", "1.0", "y<2"), pk("b", "1.0", "x"), pk("y", "1.0"), pk("y", "2.0").prov("x")},
+		w("a", "b"), w("b", "a"), w("b"), w("a")))
+	// C02-F6 minimal
+	cs = append(cs, single("C02-F6 install_if package of the requested name ignores dq",
+		[]Pkg{pk("a", "1.0"), pk("r", "1.0", "a"), pk("c", "5.0").iif("a"), pk("c", "1.0")},
+		w("r", "c<2"), w("c<2", "r")))
 	// shapes from repo_test.go
 	cs = append(cs, single("virtual with several providers, priorities",
 		[]Pkg{pk("app", "1.0", "v"), pk("p1", "1.0").prov("v").prio(10), pk("p2", "2.0").prov("v").prio(20), pk("p3", "3.0").prov("v=1.0")},
